@@ -774,6 +774,16 @@ func (env *Env) elabCall(x *ECall) Val {
 	}
 	name := id.Name
 	switch {
+	case name == "atentry":
+		// atentry(e): e evaluated in the memory of the function's entry state but with the CURRENT values of
+		// local variables (old(e) uses the entry values of the variables as well). For data the function only
+		// reads: atentry(gaps[gi].firstOffset) needs no framing argument.
+		if env.old == nil {
+			fail("atentry() not available here")
+		}
+		a := *env
+		a.mem = env.old.mem
+		return a.elab(x.Args[0])
 	case name == "old" || strings.HasPrefix(name, "old@"):
 		var oe *Env
 		if name == "old" {
